@@ -427,6 +427,29 @@ def run(idx, rep, tier):
     r3(k)
     r4(k)
     r6(k)
+    # C04.R7: the known-hosts file options of the client config follow the
+    # first-obtained-value rule (= the relevant rows of C18.R1): a later
+    # `UserKnownHostsFile none` must not switch verification off
+    from .c18 import r1 as c18r1
+    from ..absint import NotEvaluable as _NE
+    rep.rule('C04.R7', 'UserKnownHostsFile / GlobalKnownHostsFile are set by '
+             'a first-value-wins setter on every path, the `none` value '
+             'included (rows of C18.R1 for _set_string_list): a later Host * '
+             'block cannot replace a configured known-hosts file by `none`, '
+             'which would disable host key checking')
+    before = len(rep.obligations)
+    try:
+        c18r1(k)
+    except _NE as exc:
+        rep.error('C04.R7', 'handlers', str(exc))
+    kept = []
+    for o in rep.obligations[before:]:
+        if '_set_string_list' in o.key or 'knownhostsfile' in o.key.lower():
+            o.rule = 'C04.R7'
+            kept.append(o)
+    del rep.obligations[before:]
+    rep.obligations.extend(kept)
+    rep.floor('C04.R7', 'known-hosts option setter rows', len(kept), 2)
     # C04.R3b: client NEWKEYS only after verification
     from .c03 import r3 as c03r3
     before = len(rep.obligations)
